@@ -68,3 +68,49 @@ def extra(ctx: Ctx) -> None:
                     if render.CLAUSE_PROP[c] == "C05" or c == "IndicesOK":
                         ctx.violation(f"render:{c}", f"exhaustive vertices configuration {prog['id']}: Render.tla clause {c} rejected the written file",
                                       {"prog": prog, "file": rec["file"]})
+    two_slave_corners(ctx, rng)
+
+
+def two_slave_corners(ctx: Ctx, rng) -> None:
+    """Corners where the slave patches of TWO merged pairs meet, shared by two slave-side blocks: two cells side by side carry
+    slave patch "sa" on top and slave patch "Sb" in front (names that sort differently with and without regard to case); the
+    cells above carry the master of the first pair, the cells in front the master of the second. Every insertion order of
+    the six blocks is a program; judged by the Render.tla vertex clauses like any other."""
+    import itertools
+
+    from ..renderlib import SIDES
+    side = {name: i for i, name in enumerate(SIDES)}
+    cells = {"A": (0, 1, 0), "B": (1, 1, 0), "C": (0, 1, 1), "D": (1, 1, 1), "E": (0, 0, 0), "F": (1, 0, 0)}
+    patches = {"A": {"top": "sa", "front": "Sb"}, "B": {"top": "sa", "front": "Sb"}, "C": {"bottom": "m1"}, "D": {"bottom": "m1"},
+               "E": {"back": "m2"}, "F": {"back": "m2"}}
+    orders = list(itertools.permutations("ABCDEF"))
+    rng.shuffle(orders)
+    progs, recs = [], []
+    for k, order in enumerate(orders[: (40 if ctx.tier == "quick" else 720)]):
+        ops = []
+        for name in order:
+            patch = [""] * 6
+            for sd, pn in patches[name].items():
+                patch[side[sd]] = pn
+            ops.append({"pts0": render.cell_pts(cells[name], 1), "pts": [], "fops": {"bottom": [], "top": []}, "zone": "", "patch": patch,
+                        "sproj": [""] * 6, "sproj_flags": [[False, False] for _ in range(6)], "pproj": [[] for _ in range(8)],
+                        "pproj_calls": [[] for _ in range(8)], "edges": [], "deleted": False})
+        prog = {"id": 500000 + k, "focus": "two-slave-corner", "ops": ops, "merged": [["m1", "sa"], ["m2", "Sb"]], "dflt": [], "mods": [],
+                "pkind": [], "psettings": [], "geom": [], "settings": [], "exp_settings": [["scale", "1"]], "unique_face_labels": True,
+                "builtin": False, "count": 2}
+        geo = render.lattice_geometry(rng, general=rng.random() < 0.5)
+        rec = render.execute(prog, geo, ctx, with_vtk=False)
+        ctx.evaluated(f"two-slave-corner:{order}")
+        if "error" in rec:
+            ctx.violation(f"program-fails:{rec['error']}", f"two-slave-corner program could not be written: {rec['msg']}", {"order": order})
+            continue
+        progs.append(prog)
+        recs.append(rec)
+    if recs:
+        verdicts = render.judge(ctx, recs)
+        for prog, rec in zip(progs, recs):
+            ctx.validated()
+            for c in verdicts[prog["id"]]:
+                if render.CLAUSE_PROP[c] == "C05" or c == "IndicesOK":
+                    ctx.violation(f"render:{c}:two-slave-corner", f"two-slave-corner program: Render.tla clause {c} rejected the written file",
+                                  {"order": [o["patch"] for o in prog["ops"]], "file": rec["file"]})
